@@ -215,13 +215,66 @@ fn too_big(case: &Case) -> bool {
 }
 
 fn check(case: &Case) -> Verdict {
-    let mut v = Verdict::new();
     let tables = resolve(&case.tables);
     if too_big(case) {
         // replayed / shrunk cases only: the strategy filters these out
+        let mut v = Verdict::new();
         v.class("skipped:too-big");
         return v;
     }
+    check_tables(case, &tables)
+}
+
+/// `C06_DEMO=1`: the minimal hand-written inputs of the three listed findings (NOTES.md), with a dump.
+fn demo() {
+    use ast::{How, Src, Tables, P, V};
+    let eff = |n: u32| P::Eff(n);
+    let tables = Tables {
+        start: eff(1),
+        stop: eff(2),
+        run: vec![
+            // set_value(v0, 5).map(|_| 0).and_then_contextual(|agent, _| read agent.v1 ...)
+            P::Branch {
+                first: V::Of(Box::new(P::Set { lane: 0, v: 5 }), 0),
+                how: How::Ctx(Src::Val(2)),
+                arms: vec![P::Discard(V::Get(Src::Val(2)))],
+            },
+            // update(m0, 0, 1).map(|_| 28).and_then_try(|x| Err(..))   (28 is a failing value)
+            P::Branch { first: V::Of(Box::new(P::Upd { lane: 1, k: 0, v: 1 }), 28), how: How::Try, arms: vec![eff(3)] },
+            // remove(m0, 2): key 2 is absent
+            P::Rem { lane: 1, k: 2 },
+            P::Seq(vec![P::Discard(V::Get(Src::Val(0))), P::Discard(V::Get(Src::Map(1))), P::Discard(V::Get(Src::Val(2))), P::Discard(V::Get(Src::Map(3)))]),
+        ],
+        spawn: vec![],
+        lane: vec![
+            // on_event(v0) sets v1 to 7
+            vec![P::Set { lane: 2, v: 7 }, eff(4)],
+            vec![eff(5), eff(6), eff(7)],
+            vec![eff(8), eff(9)],
+            vec![eff(10), eff(11), eff(12)],
+        ],
+    };
+    let case = Case {
+        params: SimParams::default(),
+        tables: RawTables { start: ast::RP::Eff, start_abort: false, stop: ast::RP::Eff, run: vec![], spawn: vec![], lane: vec![] },
+        ops: vec![
+            COp::Sim(Op::Attach { in_cap: 4096, out_cap: 4096 }),
+            COp::Send { r: 0, cmd: Cmd::Run(0) },
+            COp::Send { r: 0, cmd: Cmd::Run(1) },
+            COp::Send { r: 0, cmd: Cmd::Run(2) },
+            COp::Sim(Op::Settle),
+        ],
+    };
+    std::env::set_var("VERIF_DUMP", "1");
+    let v = check_tables(&case, &tables);
+    for f in &v.failures {
+        eprintln!("FAILURE sig={}", f.sig);
+    }
+}
+
+fn check_tables(case: &Case, tables: &ast::Tables) -> Verdict {
+    let mut v = Verdict::new();
+    let tables = tables.clone();
     let obs = execute(case, &tables);
     let rep = verify(&tables, &obs.trace, &obs.sent, &obs.outcome);
     if std::env::var("VERIF_DUMP").is_ok() {
@@ -309,6 +362,10 @@ fn main() {
          accepts that and only requires that nothing further of the failed chain runs",
     );
     let big = ctx.pick(false, true);
+    if std::env::var("C06_DEMO").is_ok() {
+        demo();
+        return;
+    }
     if let Ok(seed) = std::env::var("C06_SAMPLE") {
         // development aid: generate one case, run it with a dump
         let case = vcommon::sample_one(&arb_case(40, big), seed.parse().unwrap_or(0));
